@@ -291,6 +291,13 @@ MapKeys2(fd) ==
 AnyV == Ov(<<"a", "b", "e", "f">>,
            <<Av(<<Nm("1"), Sv("x"), N, Bv(TRUE), Bv(FALSE), Nm("0"), Sv(""), Nm("-2.5")>>),
              O1("c", Nm("0.5")), EmptyO, EmptyA>>)
+(* more shapes of a free-form value: a non-empty array at the top (arrays in arrays, an object with a    *)
+(* null member), an object whose members are null / look like the library's own keywords ($ref, type,    *)
+(* x-), a float, a number written with an exponent (10^21: exact in float64, written 1e+21 by Go)        *)
+AnyArr   == Av(<<Av(<<Av(<<Nm("1")>>), EmptyA>>), Ov(<<"n", "o">>, <<N, O1("deep", Av(<<N>>))>>), Sv("s"), Nm("-0.5")>>)
+AnyNest  == Ov(<<"n", "$ref", "type", "x-in", "required", "k.1/2 3">>,
+               <<N, Sv("#/not/a/reference"), Nm("5"), O1("x-x", N), Bv(TRUE), Av(<<Bv(FALSE)>>)>>)
+Exp21    == "1000000000000000000000"
 BigInt   == "9007199254740993"        \* 2^53 + 1
 BigI64   == "9223372036854775807"     \* max int64
 ZeroOf(c) ==
@@ -301,7 +308,7 @@ ZeroOf(c) ==
 CanRef(fd) == fd.c \in {"obj", "map", "arr", "sob"} /\ fd.k \in RefKinds
 Variants(fd) ==
    {"v"} \cup (IF fd.zr # "none" THEN {"z"} ELSE {})
-         \cup (IF fd.c = "any" THEN {"zf", "z0", "zs", "ze", "za", "null", "big", "s"} ELSE {})
+         \cup (IF fd.c = "any" THEN {"zf", "z0", "zs", "ze", "za", "null", "big", "s", "t", "flt", "exp", "arr", "nest"} ELSE {})
          \cup (IF fd.c = "num" THEN {"big", "neg"} ELSE {})
          \cup (IF fd.c = "umax" THEN {"big"} ELSE {})
          \cup (IF fd.c = "sob" THEN {"f"} ELSE {})
@@ -343,6 +350,8 @@ Val(kind, fd, var) ==
           [] fd.c = "any"  -> CASE var = "zf" -> Bv(FALSE) [] var = "z0" -> Nm("0") [] var = "zs" -> Sv("")
                                 [] var = "ze" -> EmptyO [] var = "za" -> EmptyA [] var = "null" -> N
                                 [] var = "big" -> Nm(BigInt) [] var = "s" -> Sv(StrOf(fd.n))
+                                [] var = "t" -> Bv(TRUE) [] var = "flt" -> Nm("0.1") [] var = "exp" -> Nm(Exp21)
+                                [] var = "arr" -> AnyArr [] var = "nest" -> AnyNest
                                 [] OTHER -> AnyV
           [] fd.c = "anys" -> Av(<<Sv("a"), Nm("1"), N, Bv(FALSE), O1("o", EmptyA)>>)
           [] fd.c = "strs" -> Av(<<Sv(StrOf(fd.n)), Sv("b")>>)
